@@ -343,6 +343,7 @@ func c11Gen(t *rapid.T) c11Case {
 			p.Fail = true
 			p.FailAfter = rapid.IntRange(0, len(content)).Draw(t, "failafter")
 			p.WhenArmed = true
+			gen.FaultFlavour(t, &c.Spec, idx, false)
 		}
 		c.Ops = append(c.Ops, op)
 	}
